@@ -15,6 +15,7 @@ from .c19_meta import EXTRA, KERNELS
 
 ID = "C19"
 SHRINK_LISTS = (("schedule", "passes"),)
+NONFINITE_OK = ("extract_tim", "extract_bpass", "dedisperse", "subband", "invert_freq", "mask_channels")  # sums / copies: NaN in, NaN out
 SHRINK_MIN = {"nchans": 1, "nsamps": 1, "threads": 1, "f": 1, "f1": 1, "f2": 1, "m1": 1, "m2": 1, "nsub": 1, "n": 1, "repeats": 1}
 
 
@@ -119,7 +120,13 @@ def make_args(sc):
         if f < 1 or n < 1:
             raise Rejected("shape")
         a = r.integers(0, 16, size=n).astype(np.float32)
-        return [a, f], ["ret"], [a.reshape(-1, f).astype(np.float64).mean(1).astype(np.float32)]
+        if sc.get("nonfinite"):
+            for _ in range(int(r.integers(1, 4))):
+                a0 = int(r.integers(0, n))
+                a[a0 : a0 + int(r.integers(1, max(2, n // 2)))] = r.choice([np.nan, np.nan, np.inf, -np.inf])
+        with np.errstate(invalid="ignore"):
+            ref = a.reshape(-1, f).astype(np.float64).mean(1).astype(np.float32)
+        return [a, f], ["ret"], [ref]
     if k.startswith("downsample_2d"):
         f1, f2, d1, d2 = sh["f1"], sh["f2"], sh["f1"] * sh["m1"], sh["f2"] * sh["m2"]
         if min(f1, f2, d1, d2) < 1:
@@ -138,6 +145,11 @@ def make_args(sc):
         # the row sum below 256 so that its arithmetic is exact (the property's proviso)
         top = max(2, min(16, 255 // nch + 1))
     x = r.integers(0, top, size=ns * nch).astype(dt)
+    if sc.get("nonfinite") and dt == np.float32 and k in NONFINITE_OK:
+        # blanked stretches in float data (NaN, sometimes +-inf), some of them longer than a decimation bin / a chunk
+        for _ in range(int(r.integers(1, 4))):
+            a0 = int(r.integers(0, x.size))
+            x[a0 : a0 + int(r.integers(1, max(2, x.size // 2)))] = r.choice([np.nan, np.nan, np.inf, -np.inf])
     X = x.reshape(ns, nch).astype(np.float64)
     if k == "extract_tim":
         idx = sh.get("index", 0)
@@ -198,6 +210,9 @@ def generate(rng, tier) -> dict:
     k = rng.choice(EXTRA) if extra else rng.choice(KERNELS)
     compiled = rng.random() < (0.6 if extra else 0.3)
     sc = {"kernel": k, "dseed": rng.randrange(1 << 30), "dtype": rng.choice(["u1", "f4"])}
+    if rng.random() < 0.12 and (k in NONFINITE_OK or k.startswith("downsample_1d")):
+        sc["nonfinite"] = True
+        sc["dtype"] = "f4"
     if compiled:
         sc["mode"] = "compiled"
         sc["shape"] = big_shape(k, rng) if rng.random() < 0.5 else gen_shape(k, rng)
@@ -290,7 +305,13 @@ def outputs(args, outs, ret):
 
 def same(a, b) -> bool:
     a, b = np.asarray(a), np.asarray(b)
-    return a.shape == b.shape and a.dtype == b.dtype and a.tobytes() == b.tobytes()
+    if a.shape != b.shape or a.dtype != b.dtype:
+        return False
+    if a.dtype.kind == "f" and (np.isnan(a).any() or np.isnan(b).any()):
+        # a NaN is a NaN whatever its sign / payload bits; everything else bit for bit
+        na, nb = np.isnan(a), np.isnan(b)
+        return bool(np.array_equal(na, nb)) and a[~na].tobytes() == b[~nb].tobytes()
+    return a.tobytes() == b.tobytes()
 
 
 def moments_close(a, b):
@@ -357,6 +378,8 @@ def execute(sc, ctx) -> None:
         ctx.probe("degenerate-shape")
     if sc.get("aspect"):
         ctx.probe("extreme-aspect-ratio:" + sc["mode"])
+    if sc.get("nonfinite"):
+        ctx.probe("blanked-stretches(NaN/inf):" + sc["mode"])
     ctx.sig += [k, sc["mode"], sc.get("dtype")]
     if sc["mode"] == "sim":
         sch = sc["schedule"]
